@@ -136,9 +136,9 @@ def run(ctx):
                 lit = "Ok (RL %s)" % czlist(list(v))
             elif fn in ("binize", "hexify", "hexize"):
                 lit = "Ok (RL %s)" % cstr(v)
-            elif fn in ("unbytify", "unbinize", "signExtend"):
+            elif fn in ("unbytify", "unbinize", "signExtend", "packByte"):
                 lit = "Ok (RZ %s)" % cz(v)
-            elif fn == "unpackify":
+            elif fn in ("unpackify", "unpackByte"):
                 lit = "Ok (RV %s)" % cvals(v)
             elif fn == "packifyInto":
                 lit = "Ok (RP %s %s)" % (cz(v[0]), czlist(list(v[1])))
@@ -150,7 +150,8 @@ def run(ctx):
             else:
                 lit = "Err %s" % res[1]
         wrap = {"packify": "RL", "bytify": "RL", "unhexify": "RL", "unhexize": "RL", "binize": "RL", "hexify": "RL",
-                "hexize": "RL", "unbytify": "RZ", "unbinize": "RZ", "signExtend": "RZ", "unpackify": "RV"}.get(fn)
+                "hexize": "RL", "unbytify": "RZ", "unbinize": "RZ", "signExtend": "RZ", "unpackify": "RV",
+                "packByte": "RZ", "unpackByte": "RV"}.get(fn)
         if fn == "packifyInto":
             m = "rmap (fun p => RP (fst p) (snd p)) (%s)" % model
         else:
@@ -243,6 +244,26 @@ def run(ctx):
         if rng.random() < 0.5:
             pre = bytes(rng.randrange(256) for _ in range(rng.randint(0, 12)))
             into_case(pre, ws, vs, size, rng.randint(0, 10), rev)
+    # ---- packByte / unpackByte (format = bytes of digits) -----------------------------------
+    def byte_cases(fmtb, vs, byte, boolean):
+        r = run_impl(byting.packByte, fmtb, list(vs))
+        add("packByte", "packByte %s %s" % (czlist(list(fmtb)), czlist([int(v) for v in vs])), r,
+            {"fmt": fmtb.decode("latin1"), "fields": [int(v) for v in vs]}, "packByte")
+        r = run_impl(byting.unpackByte, fmtb, byte, boolean)
+        add("unpackByte", "unpackByte %s %s %s" % (czlist(list(fmtb)), cz(byte), cbool(boolean)), r,
+            {"fmt": fmtb.decode("latin1"), "byte": byte, "boolean": boolean}, "unpackByte")
+
+    for total in range(0, 9):
+        for ws in compositions(total):
+            fmtb = "".join(str(w) for w in ws).encode()
+            for k in range(ctx.n(2, 6)):
+                byte_cases(fmtb, rand_vals(ws), rng.choice([0, 255, rng.randrange(256), rng.randrange(-300, 70000)]),
+                           rng.random() < 0.5)
+    for _ in range(ctx.n(150, 1500)):     # malformed: digits 0/9, letters, sums > 8, short field lists
+        ln = rng.randint(0, 6)
+        fmtb = bytes(rng.choice(b"1111222334567890a +") for _ in range(ln))
+        vs = [rng.randrange(-5, 300) for _ in range(max(0, ln - (rng.random() < 0.1)))]
+        byte_cases(fmtb, vs, rng.randrange(256), rng.random() < 0.5)
     # ---- bytify / unbytify ----------------------------------------------------------------
     ns = list(range(-3, 4)) + [127, 128, 255, 256, 257, 65535, 65536, 2 ** 24 - 1, 2 ** 32, -255, -256, -257, -65536]
     for n in ns:
